@@ -4,7 +4,7 @@
 usage: killmatrix.py [seed-name ...]"""
 import json, os, subprocess, sys, glob, concurrent.futures as cf
 root = os.path.dirname(os.path.dirname(os.path.abspath(__file__)))
-props = subprocess.run([f"{root}/bin/mwcheck","-list"],capture_output=True,text=True).stdout.split()
+props = subprocess.run([os.environ.get("MWCHECK", f"{root}/bin/mwcheck"),"-list"],capture_output=True,text=True).stdout.split()
 allprops = list(props)
 if os.environ.get("PROPS"): props = [p for p in props if p in os.environ["PROPS"].split(",")]  # partial refresh
 paths = {os.path.basename(os.path.dirname(p)): p for p in glob.glob(f"{root}/seeded/*/patch.diff")}
@@ -15,7 +15,7 @@ def run(seed):
     """one process per mutant: loads once, runs every check (mwcheck -p all)"""
     ev = f"/tmp/km/{seed}"
     os.makedirs(ev, exist_ok=True)
-    p = subprocess.run([f"{root}/bin/mwcheck","-p","all","-patch",paths[seed],"-evidence-dir",ev],capture_output=True,text=True)
+    p = subprocess.run([os.environ.get("MWCHECK", f"{root}/bin/mwcheck"),"-p","all","-patch",paths[seed],"-evidence-dir",ev],capture_output=True,text=True)
     out = {}
     cur = []
     for l in p.stdout.splitlines():
